@@ -38,7 +38,7 @@ impl FeatureDisplayTrait {
             impl ::core::fmt::Display for #ident_enum {
                 #[inline]
                 fn fmt(&self, f: &mut ::core::fmt::Formatter<'_>) -> ::core::fmt::Result {
-                    f.write_str(self.#ident_as_str())
+                    f.write_str(Self::#ident_as_str(*self))
                 }
             }
         }
